@@ -96,7 +96,7 @@ def run(prop, tier, seed, replay=None):
         "rule": "one evaluation = one request (method x target) sent to a real server with every file-system "
                 "event of the process recorded and the surroundings of the data root compared before/after; "
                 "targets = all segment sequences up to length %d over {existing, existing member, fresh, '.', '..', "
-                "empty, absolute outside path} x 1-4 leading slashes x 8 encodings (plain, escaped dots, escaped slashes, mixed case, every separator escaped, and the doubly escaped variants; enumerated by TLC from "
+                "empty, absolute outside path} x 1-4 leading slashes x 11 encodings (plain, escaped dots, escaped slashes, mixed case, every separator escaped, the doubly escaped variants, Unicode look-alikes of dot and slash; enumerated by TLC from "
                 "PathMap.tla with their normal form); non-trivial = contains a dot / empty / absolute segment"
                 % (2 if quick else 3),
         "samples": [{k: r[k] for k in ("method", "target", "frontend", "status", "effect", "outside_events")}
